@@ -154,6 +154,11 @@ def check_one(rec, tree, w, start, style, title, add_self, repr_kind, join, type
         rarg, rfun = "{node.data}", (lambda n: f"{n.data}")
     elif repr_kind == "fmt2":
         rarg, rfun = "<{node.name}>", (lambda n: f"<{n.data}>")
+    elif repr_kind == "trailing-space":
+        rarg, rfun = "{node.data}  ", (lambda n: f"{n.data}  ")
+    elif repr_kind == "sometimes-empty":
+        rfun = lambda n: "" if f"{n.data}"[-1:] in "02468ac" else f"{n.data}"  # noqa: E731
+        rarg = rfun
     else:
         rfun = lambda n: f"({n.data})"  # noqa: E731
         rarg = rfun
@@ -207,10 +212,11 @@ def check_one(rec, tree, w, start, style, title, add_self, repr_kind, join, type
 
     # ---- oracle 2: decode the shape from the prefixes alone ----------------------------
     if style != "list" and decodable(style):
-        lines = got.split(j) if got else []
-        if is_tree and (title is None or title is not False):
-            lines = lines[1:]
         nodes = [n for _, n in body]
+        has_title_line = is_tree and (title is None or title is not False)
+        lines = got.split(j) if (nodes or has_title_line) else []
+        if has_title_line:
+            lines = lines[1:]
         if len(lines) != len(nodes):
             rec.fail("decode:line-count", desc)
             return 3
@@ -388,7 +394,7 @@ def hyp_cases(draw, tier):
         "style": style,
         "title": draw(st.sampled_from([None, False, True, "Title X"])),
         "add_self": draw(st.booleans()),
-        "repr": draw(st.sampled_from(["default", "fmt", "fmt2", "callable"])),
+        "repr": draw(st.sampled_from(["default", "fmt", "fmt2", "callable", "trailing-space", "sometimes-empty"])),
         "join": draw(st.sampled_from([None, "\n", ", ", "\r\n", ";"])),
     }
 
